@@ -1,6 +1,7 @@
 import Treepath.Proofs.Drive
 import Treepath.Proofs.EvalLemmas
 import Treepath.Proofs.NodeLemmas
+import Treepath.Proofs.DriveX
 /- C03 — a filter keeps exactly the candidates its predicate accepts -/
 namespace Treepath.C03
 
@@ -64,6 +65,48 @@ theorem raise_surfaces {α} (view : α → View α) (st : St α) (c : Nat) (tm :
     vmatch view st c tm vi (.filter f) =
       .abort st (.raised (.traversing e)) (.predCall tm.node :: (f tm.node).evs ++ [.raised (.traversing e)]) := by
   simp [vmatch, vmatchFilter, h]
+
+/-- **end to end, for every path and every predicate** (no `Quiet` premise: predicates may
+raise on any candidate; their own trace events are clean, as those of the has-family are):
+when the traverser says `StopIteration`, the definition finished without an exception and its
+answer is exactly what was yielded -/
+theorem machine_filters_any_predicate (steps : Array (Step J)) (src : Src J) (hp : PredsClean steps)
+    (limit : Nat) (st' st'' : St J) (rs : List (MNode J)) (E evs : List (Ev J))
+    (hy : Yields J.view steps src limit freshIter rs E st')
+    (hstop : next J.view steps src limit st' = (st'', evs, .stop)) :
+    evalE steps.toList src.rootNode = (rs, none) :=
+  exhausted_all_x steps src hp limit st' st'' rs E evs hy hstop
+
+/-- **a predicate's exception is never swallowed and never a silent non-match**: if `next()`
+raises `x` (anything but the loop budget), the definition yields exactly the results already
+delivered and then fails with exactly `x` — `TraversingError` wrapping the predicate's
+exception, one link per enclosing filter (`Exc.traversing` nests), or the bare `ValueError`
+of a zero slice step -/
+theorem machine_raise_is_definition_raise (steps : Array (Step J)) (src : Src J) (hp : PredsClean steps)
+    (limit : Nat) (st' st'' : St J) (rs : List (MNode J)) (E evs : List (Ev J)) (x : Exc)
+    (hy : Yields J.view steps src limit freshIter rs E st')
+    (hraise : next J.view steps src limit st' = (st'', evs, .raised x)) (hx : x ≠ .loopDetected) :
+    evalE steps.toList src.rootNode = (rs, some x) :=
+  raises_x steps src hp limit st' st'' rs E evs x hy hraise hx
+
+/-- … and while no call has failed, what was yielded is a prefix of what the definition
+produces before its first exception -/
+theorem machine_prefix_any_predicate (steps : Array (Step J)) (src : Src J) (hp : PredsClean steps)
+    (limit : Nat) (st' : St J) (rs : List (MNode J)) (E : List (Ev J))
+    (hy : Yields J.view steps src limit freshIter rs E st') :
+    ∃ rest, (evalE steps.toList src.rootNode).1 = rs ++ rest :=
+  yields_prefix_x steps src hp limit st' rs E hy
+
+/-- the specification stream and the definition agree, exceptions included -/
+theorem stream_is_definition (p : List (Step J)) (hp : PredsClean p.toArray) (n : MNode J) :
+    (resultsOf (takeThroughRaise (stream p 0 n)), firstRaise (stream p 0 n)) = evalE p n :=
+  cut_stream p hp 0 n
+
+/-- non-vacuity: a predicate that raises on the second candidate -/
+example :
+    let r := evalE [.keyWc, .filter (fun n => ⟨[], match n.data with | .int 1 => .raise (.user "Boom") | _ => .val (.bool true)⟩)]
+      (.root (.obj [("a", .int 0), ("b", .int 1), ("c", .int 2)]))
+    r.1.map MNode.pathStr = ["$.a"] ∧ r.2 = some (.traversing (.user "Boom")) := by decide
 
 example :
     (eval [.keyWc, .filter (fun n => ⟨[], .val (match n.data with | .int 0 => .str "" | _ => .arr [.int 0])⟩)]
